@@ -81,14 +81,16 @@ def pool_programs(r):
     shifted = '    nop\n    nop\n%s:\n    nop\n%s:\n    addi sp, sp, 16\n    beq x8, x0, %s\n    jal x0, %s\n' % (lab, lab2, lab, lab2)
     compressy = '%s:\n    addi sp, sp, 16\n    addi x8, x2, 4\n    add x1, x0, x2\n    lui t0, 1\n    lui t0, 0xfffff\n    addi t0, t0, 1\n    lw x8, 0(x9)\n%s:\n    sw ra, 4(sp)\n    j %s\n    bnez s0, %s\n' % (lab, lab2, lab, lab2)
     redefine = '%s = %d\n%s:\n    addi t0, t0, %s\n' % (kon, (val + 7) % 2000, lab2, kon)
-    entries = [('definer', definer), ('user', user), ('user-labels', user_labels_only), ('alias-definer', alias_def), ('alias-user', alias_user),
+    clash = '%s = %d\n    nop\n%s:\n    addi t0, t0, %s\n    dw %s\n    li t1, %s\n%s:\n    lw a0, %s(sp)\n' % (kon, val, kon, kon, kon, kon, lab, kon)
+    blobprog = '%s:\n    nop\ninclude_bytes blob.dat\nalign 4\n%s:\n    j %s\n    dw %s\n' % (lab, lab2, lab, lab2)
+    entries = [('clash', clash), ('blob', blobprog), ('definer', definer), ('user', user), ('user-labels', user_labels_only), ('alias-definer', alias_def), ('alias-user', alias_user),
                ('shifted', shifted), ('compressy', compressy), ('redefine', redefine)]
     # failing programs, one per fault class
     for cls in r.sample(sorted(c for c in progs.FAULTS if c != 'duplicate-label'), 3):
         t = r.choice(progs.FAULTS[cls]).replace('{label}', lab)
         entries.append(('fail-' + cls, '%s:\n    nop\n%s\nalign 4\n    addi t0, t0, 1\n' % (lab, t)))
     for i, (kind, text) in enumerate(entries):
-        if r.random() < 0.55:
+        if r.random() < 0.55 or kind == 'blob':
             p = '/w/proj/p%d.asm' % i
             files[p] = text
             pool.append({'kind': kind, 'target': p, 'is_path': True})
@@ -99,6 +101,7 @@ def pool_programs(r):
     for p, t in tree['files'].items():
         files[p] = t
     bins = dict(tree.get('bins') or {})
+    bins['/w/proj/blob.dat'] = {'rand': [r.randrange(1 << 30), r.choice((1, 4, 16, 33))]}
     pool.append({'kind': 'tree', 'target': tree['main'], 'is_path': True, 'inc_dirs': tree['inc_dirs']})
     # a string source that includes a file by name (resolved against the cwd: the cwd is an input)
     files['/w/proj/inc_defs.asm'] = '%s = %d\n' % (kon, val)
@@ -122,10 +125,13 @@ def make_history(r, nsteps=None):
     ops = []
     shared_inc = r.choice(([], ['/w/inc1'], ['/w/inc1', '/w/other/inc2'], list(tree['inc_dirs'])))
     editable = sorted(p for p in files)
+    cur_len = {}
     for _ in range(nsteps):
         c = r.random()
         if c < 0.78:
             i = r.randrange(len(pool))
+            if r.random() < 0.2:
+                i = r.choice([j for j, p in enumerate(pool) if p['kind'] in ('blob', 'clash', 'tree')])
             # bias towards pairs: after a definer, run a user
             if ops and ops[-1]['op'] == 'assemble' and r.random() < 0.35:
                 prev = pool[ops[-1]['prog']]['kind']
@@ -150,8 +156,17 @@ def make_history(r, nsteps=None):
                 else:
                     ops.append({'op': 'create', 'path': r.choice(shared_inc) + '/' + posixpath.basename(t), 'like': t})
                 continue
-            if bins and r.random() < 0.25:
-                ops.append({'op': 'writebin', 'path': r.choice(sorted(bins)), 'spec': {'rand': [r.randrange(1 << 30), r.choice((0, 1, 4, 16, 33, 300))]}})
+            if bins and r.random() < 0.3:
+                bp = r.choice(sorted(bins))
+                if bp not in cur_len:
+                    cur_len[bp] = len(progs.bin_bytes(bins[bp]))
+                # same length (content-only change) or a new length
+                n = cur_len[bp] if r.random() < 0.5 else r.choice((0, 1, 4, 16, 33, 300))
+                cur_len[bp] = n
+                ops.append({'op': 'writebin', 'path': bp, 'spec': {'rand': [r.randrange(1 << 30), n]}})
+                users = [j for j, p in enumerate(pool) if p['kind'] in ('blob', 'tree')]
+                if users and r.random() < 0.7:
+                    ops.append({'op': 'assemble', 'prog': r.choice(users), 'compress': r.random() < 0.5, 'inc': 'own', 'dicts': 'fresh', 'inject': None})
                 continue
             # bias edits towards files of the program assembled last, so that a stale cache has something to be stale about
             p = r.choice(editable)
@@ -325,10 +340,15 @@ def run_history(scen):
         inj = op.get('inject')
         fs.faults = copy.deepcopy(inj['faults']) if inj and inj['kind'] == 'fs' else []
         fs.fired = []
+        before_files = dict(fs.files) if fs.faults else None
         out = asmsim.run_api(fs, call, log, inject=inj if inj and inj['kind'] == 'line' else None)
         rec = norm_outcome(out)
         rec['fs_fired'] = len(fs.fired)
         fs.faults = []
+        if before_files is not None:
+            # injected TOCTOU faults change a file *during* the call; the environment is put back afterwards so that the
+            # snapshot later steps (and their references) see is the one the operations describe
+            fs.files = before_files
         steps.append(rec)
         c_obj, l_obj = out.get('objs', (None, None))
         if out['ok']:
